@@ -113,6 +113,9 @@ def _make_underlying(case, tp, torch):
         rect = tp.domains.Parallelogram(X, [0, 0], [2, 0], [0, 1])
         if u == "uniform":
             s = _recording_sampler(tp.samplers.RandomUniformSampler)(rect, n_points=n)
+        elif u == "uniform_pdep":     # disc whose radius depends on the parameter q that every call hands in (other values each time)
+            disc = tp.domains.Circle(X, [0.0, 0.0], lambda q: q + 0.5)
+            s = _recording_sampler(tp.samplers.RandomUniformSampler)(disc, n_points=n)
         elif u == "gauss":
             s = _recording_sampler(tp.samplers.GaussianSampler)(rect, n, [1.0, 0.5], 0.4)
         elif u == "lhs":
@@ -180,7 +183,10 @@ def run_static(case):
         before = len(under.rec_draws)
         ncall += 1
         try:
-            if len(op) > 2 and op[2]:          # with a parameter row (positional or by keyword)
+            if case["under"] == "uniform_pdep":
+                qv = [((7 * j) % 40 + 1) / 8, ((11 * j + 3) % 40 + 1) / 8]
+                out = cur.sample_points(tp.spaces.Points(torch.tensor([[v] for v in qv]), tp.spaces.R1("q")), device=DEV[d])
+            elif len(op) > 2 and op[2]:          # with a parameter row (positional or by keyword)
                 out = cur.sample_points(P1, DEV[d]) if op[2] == 1 else cur.sample_points(device=DEV[d], params=P1)
             elif d == 0 and case.get("default_dev") and j % 2 == 0:
                 out = cur.sample_points()
@@ -216,6 +222,10 @@ def run_static(case):
             dev_ok = bool(src) and torch.device(under.rec_devs[src[0]]) == torch.device(DEV[d])
         toks.append((f"{ident}@{d if dev_ok else 'X'}" if fresh else f"{ident}") + f":{d if on_dev else 'X'}")
         # ---- property oracle, directly on what was returned
+        if case["under"] == "uniform_pdep":
+            bad = [tuple(round(v, 4) for v in r) for r in t.tolist() if math.hypot(r[0], r[1]) > r[2] + 0.5 + 1e-5]
+            if bad:
+                problems.append((j, f"sample call {ncall}: returned row {bad[0]} lies outside the domain at the parameter value it carries (last column)"))
         if len(out) != len(seen[0]):
             problems.append((j, f"sample call {ncall} returned {len(out)} rows, the first call {len(seen[0])}"))
         if not on_dev:
@@ -281,7 +291,7 @@ def _query(tp, torch, s, kind):
             else:
                 tp.conditions.AdaptiveWeightsCondition(model, s, lambda u: u)
         elif kind == 10:
-            s.set_length(7)      # overrides what len() reports; nothing else
+            s.set_length(len(s))      # fixes what len() reports (to its present value); nothing else
     except Exception:  # noqa: e.g. len() of a density sampler is unknown, adaptive weights need a static sampler
         pass
 
@@ -313,6 +323,9 @@ def _make_domain(case, tp, torch):
     elif kind == "circle":
         dom = _recording_domain(tp.domains.Circle)(X, [1.0, 2.0], 1.5)
         inside = lambda p: math.hypot(p[0] - 1.0, p[1] - 2.0) <= 1.5 + 1e-5
+    elif kind == "pcircle":       # disc whose radius depends on the parameter q handed in with `params=`
+        dom = _recording_domain(tp.domains.Circle)(X, [0.0, 0.0], lambda q: q + 0.5)
+        inside = lambda p: math.hypot(p[0], p[1]) <= p[2] + 0.5 + 1e-5          # at the parameter value the row carries
     elif kind == "sphere":
         X = tp.spaces.R3("x")
         dom = _recording_domain(tp.domains.Sphere)(X, [0.0, 1.0, -1.0], 2.0)
@@ -386,8 +399,14 @@ def run_adaptive(case):
     DEV = _devices(torch)
     palette = case.get("devs") or [0]
     extra = {}
-    if case.get("params"):          # the same two parameter rows in every call: n points per row
-        extra["params"] = tp.spaces.Points(torch.tensor([[0.5], [1.5]]), tp.spaces.R1("p"))
+    Q = tp.spaces.R1("q")
+
+    def params_of(tj):
+        """two parameter rows (n points per row): the same in every call, or (pseq) other values in every call"""
+        if case.get("pseq"):
+            a, b = case["pseq"][tj % len(case["pseq"])]
+            return [a / 8, b / 8]
+        return [0.5, 1.5]
     direct = not case.get("filter")            # draws of the domain are the fresh sample, row by row
     problems, texts, model_calls = [], [], []
     n0 = None
@@ -413,6 +432,10 @@ def run_adaptive(case):
             loss_t, loss = _loss_tensor(torch, case, call["loss"], dtype)
             if case.get("grad"):
                 loss_t.requires_grad_(True)      # as a condition passes it: the un-detached loss of the last step
+        pcur = None
+        if case.get("params"):
+            pcur = params_of(tj)
+            extra["params"] = tp.spaces.Points(torch.tensor([[v] for v in pcur]), Q)
         dev = DEV[palette[tj % len(palette)]]
         if palette != [0] or tj % 3:
             extra["device"] = dev
@@ -481,7 +504,22 @@ def run_adaptive(case):
             break           # the history has failed here; later calls cannot be judged against a set of another size
         rows = [tuple(r) for r in t.tolist()]
         same = [prev is not None and rows[i] == tuple(prev[i].tolist()) for i in range(n0)]
-        draw = dom.rec_draws[-1] if (direct and len(dom.rec_draws) == before + 1 and dom.rec_draws[-1].shape == t.shape) else None
+        draw = None
+        if direct and len(dom.rec_draws) == before + 1 and dom.rec_draws[-1].shape[0] == n0:
+            d = dom.rec_draws[-1]
+            if d.shape == t.shape:
+                draw = [tuple(r) for r in d.tolist()]
+            elif pcur is not None and n0 % len(pcur) == 0 and d.shape[1] + 1 == t.shape[1]:
+                # the fresh sample = the domain's points joined with the parameter row they were drawn for
+                per = n0 // len(pcur)
+                draw = [tuple(r) + (float(torch.tensor(pcur[i // per], dtype=t.dtype)),) for i, r in enumerate(d.tolist())]
+        # every returned row -- kept or replaced -- must lie in the domain at the parameter value it is returned with
+        for i in range(n0):
+            if not inside(rows[i]):
+                what = "kept" if same[i] else "replaced"
+                problems.append((j, f"adaptive call {tj + 1}: returned row {i} = {tuple(round(v, 4) for v in rows[i])} ({what}) lies outside the "
+                                    f"domain" + (" at the parameter value it carries (last column)" if pcur is not None else "")))
+                break
         # expectation per row: "keep" / "replace" / "either" (not decidable from what was observed)
         if prev is None or loss is None:
             expect = ["replace"] * n0
@@ -513,8 +551,6 @@ def run_adaptive(case):
             if not same[i] and expect[i] != "keep":
                 if rows[i] in all_rows:
                     problems.append((j, f"adaptive call {tj + 1}: replacement for row {i} is not a fresh point (it was returned before)"))
-                if not inside(rows[i]):
-                    problems.append((j, f"adaptive call {tj + 1}: replacement for row {i} = {rows[i]} lies outside the domain"))
                 if filt is not None and not rows[i][0] > 1.0:
                     problems.append((j, f"adaptive call {tj + 1}: replacement for row {i} = {rows[i]} violates the sampler's filter"))
             if same[i] and prev_org:
@@ -522,7 +558,7 @@ def run_adaptive(case):
             elif draw is not None:
                 # which row of the fresh uniform sample is it?  (the model says: the row with the same index; any fresh point
                 # inside the domain satisfies the property, so a different index is a correspondence matter only)
-                src = [r for r in range(n0) if tuple(draw[r].tolist()) == rows[i]]
+                src = [r for r in range(n0) if draw[r] == rows[i]]
                 org.append((tj, i if i in src else (src[0] if src else "?")))
             else:
                 org.append((tj, i))
@@ -609,7 +645,7 @@ def _gen_interval(rng):
 
 
 def gen_static(rng, big=False):
-    under = rng.choice(["stamp"] * 6 + ["uniform"] * 3 + ["gauss", "lhs", "prod", "concat", "empty", "stamp0", "empty_cls"])
+    under = rng.choice(["stamp"] * 6 + ["uniform"] * 3 + ["gauss", "lhs", "prod", "concat", "empty", "stamp0", "empty_cls", "uniform_pdep"])
     n = rng.choice([1, 2, 3, 5]) if under == "stamp" else rng.choice([2, 3, 6])
     if under in ("empty", "empty_cls"):
         n = 0
@@ -696,8 +732,16 @@ def gen_adaptive(rng, rnd):
             lazy = True
         if rng.random() < 0.4:
             case["setvol"] = True
-    if r >= 0.5 and r < 0.58:
+    if r >= 0.5 and r < 0.7:
         case["params"] = True           # two parameter rows: 2n points, known after the first call
+        lazy = True
+        x = rng.random()
+        if x < 0.75:
+            case["dom"] = "pcircle"     # the domain depends on the parameter
+        if x < 0.55 or x > 0.9:         # parameter VALUES that change from call to call (k/8)
+            case["pseq"] = [[rng.randint(1, 40), rng.randint(1, 40)] for _ in range(ncalls)]
+    elif r < 0.12 and rng.random() < 0.3:
+        case["params"] = True           # filter x constant parameter rows
         lazy = True
     calls = []
     bad = rng.random() < 0.06 and not lazy
@@ -762,6 +806,9 @@ FIXED = [
     dict(kind="adapt", dom="depdisc", n=5, density=3.0, ratio="1/2", calls=[None, dict(loss_seed=1), dict(loss_seed=2), None, dict(loss_seed=3)]),
     dict(kind="adapt", dom="depdisc", n=5, density=2.0, setvol=True, ratio="1/4", calls=[None, dict(loss_seed=4), dict(loss_seed=5)]),
     dict(kind="adaptr", dom="prodbox", n=5, density=4.0, calls=[None, dict(loss_seed=6), dict(loss_seed=7)]),
+    dict(kind="adapt", dom="pcircle", n=4, ratio="1/2", params=True, pseq=[[1, 2], [40, 30], [2, 1], [24, 40]],
+         calls=[None, dict(loss_seed=11), dict(loss_seed=12), dict(loss_seed=13)]),
+    dict(kind="adaptr", dom="pcircle", n=4, params=True, pseq=[[1, 1], [40, 40], [8, 8]], calls=[None, dict(loss_seed=14), dict(loss_seed=15)]),
     dict(kind="adapt", dom="rect", n=5, ratio="1/2", scale=[0.0, 1e-9], calls=[None, dict(loss=[0, 64, 32, 16, 48]), dict(loss=[7, 7, 7, 7, 7])]),
     dict(kind="adapt", dom="rect", n=5, ratio="1/2", scale=[1e3, 8e-3], f64=True, calls=[None, dict(loss=[0, 64, 32, 16, 48])]),
     dict(kind="adapt", dom="circle", n=4, ratio="1/4", scale=[1e3, 8e-3], devs=[0, 2], calls=[None, dict(loss=[0, 512, 100, 300])]),
@@ -865,6 +912,10 @@ def judge(rep, case, res, model_reply):
             rep.count("ratio:" + ("dyadic" if _ratio_of(case).denominator <= RDEN else "not dyadic"))
         dv = sorted(set(case.get("devs") or [0]))
         rep.count("adaptive-devices:" + ("one spelling" if len(dv) == 1 else "several spellings"))
+        if case.get("params"):
+            rep.count("adaptive-params:" + ("values change between calls" if case.get("pseq") else "constant")
+                      + (" x parameter-dependent domain" if case["dom"] == "pcircle" else " x independent domain")
+                      + (" x filter" if case.get("filter") else ""))
         for flag in ("pos", "grad", "params"):
             if case.get(flag):
                 rep.count("adaptive:" + {"pos": "loss passed positionally", "grad": "loss requires grad", "params": "with parameter rows"}[flag])
